@@ -119,44 +119,69 @@ def receive_overrides(repo):
 
 
 def rule_first(ctx):
-    for c in receive_overrides(ctx.repo):
+    """every receive() of a registry-owning layer consults the registry first and, when the registry consumed the
+    stanza, does nothing else - by abstract execution of receive with processIqRegistry answering True (for each
+    stanza kind, over all cells of the stanza's attributes): no delivery, no send, no registration, no callback"""
+    from ..absint import enumerate_cells, Budget, flat_effects
+    from ..layers import symbolic_node
+    repo = ctx.repo
+    for c in receive_overrides(repo):
         fn = c.methods["receive"]
-        ctx.repo.consulted.add(c.relpath)
+        repo.consulted.add(c.relpath)
         w = where(c.relpath, c.name + ".receive", fn.lineno)
-        g = CFG(fn)
-        P = params_of(fn)[0]
-        regs = find_nodes(g, lambda x: isinstance(x, ast.Call) and is_self_attr(x.func, "processIqRegistry"))
-        if len(regs) != 1 or [unparse(a) for a in regs[0][1].args] != [P]:
-            ctx.violate("C08.first", w, fn, "receive must consult processIqRegistry(%s) exactly once" % P)
-            continue
-        rn, rcall = regs[0]
-        # other effectful self-calls / callback invocations
-        others = []
-        for n in g.live:
-            for e in node_exprs(n):
-                for x in walk_no_nested(e):
-                    if isinstance(x, ast.Call) and x is not rcall:
-                        f = x.func
-                        if (isinstance(f, ast.Attribute) and isinstance(f.value, ast.Name) and f.value.id == "self") or isinstance(f, ast.Name) or isinstance(f, ast.Subscript):
-                            if unparse(f) in ("logger.debug", "len", "str"):
-                                continue
-                            others.append((n, x))
-        if not others:
-            ctx.hold("C08.first", w, "receive only consults the registry", "registry consulted; nothing else dispatched here")
-            continue
-        if rn.kind != "test":
-            ctx.violate("C08.first", w, rn.stmt, "the result of processIqRegistry is ignored but the stanza is dispatched afterwards")
-            continue
-        t = rn.stmt.test
-        neg = isinstance(t, ast.UnaryOp) and isinstance(t.op, ast.Not) and t.operand is rcall
-        pos = t is rcall
-        if not (neg or pos):
-            ctx.undecided("C08.first", w, rn.stmt, "registry test is not `if [not] self.processIqRegistry(...)`")
-            continue
-        region = {x.id for x in edge_region(g, rn, "true" if neg else "false")}
-        bad = [(n, x) for (n, x) in others if n.id not in region and n is not rn]
-        ctx.check("C08.first", not bad, w, rn.stmt, "dispatch `%s` is reachable although the registry consumed the stanza (or before it was consulted)" % (unparse(bad[0][1])[:60] if bad else ""),
-                  "%d dispatch call(s), all only when the registry returned False" % len(others))
+        entity_based = any(k.name == "YowInterfaceLayer" for k in repo.mro(c))
+        iqcls = [k for k in repo.by_simple.get("IqProtocolEntity", []) if "protocol_iq" in k.relpath][0]
+        bad, asked_total, problem = [], 0, None
+        for tag in ("iq", "message", "receipt", "notification"):
+            def run(cell, domains, tag=tag):
+                runner = LayerRunner(repo)
+                hooks = runner.hooks()
+                asked = []
+
+                def registry(itp, recv, a, k, env, d, e):
+                    asked.append(list(a))
+                    return ("c", True)
+                hooks["method:processIqRegistry"] = registry
+                it = Interp(repo, cell, domains, hooks=hooks)
+                it.layer_base = runner.base
+                layer = runner.make_layer(it, c)
+                if entity_based:
+                    o = Obj(iqcls)
+                    o.fields.update({"tag": ("c", tag), "_id": ("c", "r1"), "_type": ("c", "result"), "xmlns": C_NONE, "to": C_NONE, "_from": C_NONE})
+                    arg = ("obj", o)
+                else:
+                    arg = symbolic_node(tag)
+                it.effects[:] = []
+                res = {"raised": None, "asked": asked, "arg": arg}
+                try:
+                    it.method_call(layer, "receive", [arg], {}, {"@module": c.module, "@owner": c}, 0, None)
+                except _Raise as r:
+                    res["raised"] = r.text
+                res["effects"] = [e for e in flat_effects(it.effects) if e[0] in ("UP", "DOWN", "REG", "EMIT", "BCAST")]
+                return res, it
+            try:
+                cells = enumerate_cells(run, {}, max_cells=400)
+            except Budget:
+                problem = "cell budget exceeded for <%s>" % tag
+                break
+            for cell, r in cells:
+                if not r["asked"]:
+                    continue                 # this kind of stanza never reaches the registry in this layer (nothing consumed)
+                asked_total += 1
+                a0 = r["asked"][0]
+                same = len(r["asked"]) == 1 and len(a0) == 1 and a0[0][0] == r["arg"][0] and a0[0][1] is r["arg"][1]
+                if not same:
+                    bad.append("<%s>: the registry is consulted %d time(s), not once with the received stanza" % (tag, len(r["asked"])))
+                if r["effects"] or r["raised"]:
+                    bad.append("<%s>: although the registry consumed the stanza it is %s" % (tag, "also " + "/".join(sorted({e[0] for e in r["effects"]})) if r["effects"] else "followed by " + str(r["raised"])[:40]))
+        if problem:
+            ctx.undecided("C08.first", w, fn, problem)
+        elif not asked_total:
+            ctx.violate("C08.first", w, fn, "receive never consults processIqRegistry: replies to this layer's requests are dispatched as ordinary stanzas")
+        else:
+            ctx.check("C08.first", not bad, w, "registry consulted first; a consumed stanza is not dispatched",
+                      "dispatch is reachable although the registry consumed the stanza (or before it was consulted): " + "; ".join(sorted(set(bad))[:2]),
+                      "consulted once with the received stanza in %d path classes; nothing else happens when it answers True" % asked_total)
 
 
 def rule_cb(ctx):
@@ -172,6 +197,24 @@ def rule_cb(ctx):
                         continue
                     repo.consulted.add(m.relpath)
                     cbs = list(call.args[1:3]) + [k.value for k in call.keywords if k.arg in ("onSuccess", "onError")]
+                    starred = [x for x in cbs if isinstance(x, ast.Starred)]
+                    if starred:
+                        # callbacks taken from a table of method names (`*[getattr(self, name) for name in names]`): every
+                        # method the class's constant tables name must bind (reply, original request)
+                        cbs = [x for x in cbs if not isinstance(x, ast.Starred)]
+                        names = set()
+                        for kk in repo.mro(c):
+                            for ce in kk.consts.values():
+                                for x in ast.walk(ce):
+                                    if isinstance(x, ast.Constant) and isinstance(x.value, str) and repo.find_method(c, x.value)[1] is not None:
+                                        names.add(x.value)
+                        if not names:
+                            ctx.undecided("C08.cb", where(m.relpath, c.name + "." + fname, call.lineno), starred[0], "callback could not be resolved")
+                        for nm in sorted(names):
+                            n += 1
+                            k_, target = repo.find_method(c, nm)
+                            probs = bind_problems(target, None, not func_is_static(target), extra_positional=2)
+                            ctx.check("C08.cb", not probs, where(m.relpath, c.name + "." + fname, call.lineno), "callback %s (from a table of names)" % nm, "registered callback cannot be called with (reply, original request): %s" % "; ".join(probs), "binds (reply, original request)")
                     for cb in cbs:
                         n += 1
                         w = where(m.relpath, c.name + "." + fname, call.lineno)
